@@ -16,10 +16,10 @@ theorem SepBy.first {α} {p : SP α} {c : STok} {xs : List α} {ts r : List STok
 
 /-- the four braced declarations with an empty body `kw id { }` -/
 structure EmptyBody (kw : Token) (st : PState) : Prop where
-  k1 : peekTok st = some kw
-  k2 : peekTok (adv st) = some .Ident
-  k3 : peekTok (adv (adv st)) = some .OpenBrace
-  k4 : peekTok (adv (adv (adv st))) = some .CloseBrace
+  k1 : nextTok st = some kw
+  k2 : nextTok (adv st) = some .Ident
+  k3 : nextTok (adv (adv st)) = some .OpenBrace
+  k4 : nextTok (adv (adv (adv st))) = some .CloseBrace
 
 theorem record_empty_rejected {st : PState} (h : EmptyBody .RecordKeyword st) (pf gf : Nat) :
     (∃ sp, parseRecordDecl (pf + 1) st = .error (.EmptyType "record" "field" sp)) ∧
